@@ -5,6 +5,7 @@ import ast
 
 from ..effects import Effects
 from ..families import is_observer, observers
+from ..inline import inlined
 from ..model import AnalysisError, Program
 from ..report import Run
 
@@ -297,20 +298,106 @@ def _r4(program: Program, run: Run) -> None:
         raise AnalysisError(f"instance count below floor: state stores scanned {nstores}")
 
 
+def _fresh_when_absent(program: Program, f, pcls) -> tuple[bool, bool]:
+    """(a Parameterizer is constructed in f, every construction is reached only when the context carries none).
+    Path conditions are read with their polarity: `if not ctx.parameterizer:` / `if ctx.parameterizer is None:` /
+    the else branch of `if ctx.parameterizer:` / `ctx.parameterizer or Parameterizer()`; a local holding
+    `ctx.parameterizer` stands for it."""
+    held = {n.targets[0].id for n in ast.walk(f.node)
+            if isinstance(n, ast.Assign) and len(n.targets) == 1 and isinstance(n.targets[0], ast.Name)
+            and isinstance(n.value, ast.Attribute) and n.value.attr == "parameterizer"}
+
+    def is_p(e):
+        if isinstance(e, ast.NamedExpr):
+            return is_p(e.value)
+        return (isinstance(e, ast.Attribute) and e.attr == "parameterizer") or (isinstance(e, ast.Name) and e.id in held)
+
+    def absent(test, positive: bool) -> bool:
+        """the condition (taken with this polarity) implies that no parameterizer was supplied"""
+        if isinstance(test, ast.UnaryOp) and isinstance(test.op, ast.Not):
+            return present(test.operand, positive)
+        if isinstance(test, ast.Compare) and len(test.ops) == 1 and is_p(test.left) and isinstance(test.comparators[0], ast.Constant) and test.comparators[0].value is None:
+            if isinstance(test.ops[0], (ast.Is, ast.Eq)):
+                return positive
+            if isinstance(test.ops[0], (ast.IsNot, ast.NotEq)):
+                return not positive
+        if isinstance(test, ast.BoolOp):
+            if isinstance(test.op, ast.And) and positive:
+                return any(absent(v, True) for v in test.values)
+            if isinstance(test.op, ast.Or) and not positive:
+                return any(absent(v, False) for v in test.values)
+        if is_p(test):
+            return not positive
+        return False
+
+    def present(test, positive: bool) -> bool:
+        """`not <test>` taken with this polarity implies absence"""
+        return absent(test, not positive)
+
+    made = False
+    ok = True
+
+    def walk(node, conds):
+        nonlocal made, ok
+        if isinstance(node, ast.Call) and isinstance(node.func, ast.Name):
+            r = program.resolve_global(f.module, node.func.id)
+            if r and r[0] == "class" and r[1] is pcls:
+                made = True
+                if not any(absent(t, pos) for t, pos in conds):
+                    ok = False
+        if isinstance(node, ast.If):
+            walk(node.test, conds)
+            for st in node.body:
+                walk(st, conds + [(node.test, True)])
+            for st in node.orelse:
+                walk(st, conds + [(node.test, False)])
+            # statements after an `if <present>: return/raise` are only reached when absent: handled by the caller
+            return
+        if isinstance(node, ast.IfExp):
+            walk(node.test, conds)
+            walk(node.body, conds + [(node.test, True)])
+            walk(node.orelse, conds + [(node.test, False)])
+            return
+        if isinstance(node, ast.BoolOp):
+            acc = list(conds)
+            for v in node.values:
+                walk(v, acc)
+                acc = acc + [(v, isinstance(node.op, ast.And))]
+            return
+        if isinstance(node, (ast.FunctionDef, ast.Module)) or hasattr(node, "body") and isinstance(getattr(node, "body"), list):
+            extra = []
+            for fld in ("body", "orelse", "finalbody"):
+                seq = getattr(node, fld, None)
+                if not isinstance(seq, list):
+                    continue
+                acc = list(conds)
+                for st in seq:
+                    walk(st, acc)
+                    # early exit: `if <test>: return ...` makes the rest of the block conditional on `not <test>`
+                    if isinstance(st, ast.If) and not st.orelse and st.body and isinstance(st.body[-1], (ast.Return, ast.Raise)):
+                        acc = acc + [(st.test, False)]
+            for fld, val in ast.iter_fields(node):
+                if fld in ("body", "orelse", "finalbody"):
+                    continue
+                for ch in (val if isinstance(val, list) else [val]):
+                    if isinstance(ch, ast.AST):
+                        walk(ch, conds)
+            return
+        for ch in ast.iter_child_nodes(node):
+            walk(ch, conds)
+
+    walk(f.node, [])
+    return made, made and ok
+
+
 def _r3(program: Program, run: Run) -> None:
     pcls = program.cls("Parameterizer")
     gps = program.definitions_of("get_parameterized_sql")
     if not gps:
         raise AnalysisError("anchor vanished: get_parameterized_sql")
-    for f in gps:
-        made = False
-        for n in ast.walk(f.node):
-            if isinstance(n, ast.Call) and isinstance(n.func, ast.Name):
-                r = program.resolve_global(f.module, n.func.id)
-                if r and r[0] == "class" and r[1] is pcls:
-                    made = True
-        # the fresh one must be installed only when none is supplied
-        tested = any(isinstance(n, ast.If) and "parameterizer" in ast.unparse(n.test) for n in ast.walk(f.node))
+    for f0 in gps:
+        f = inlined(program, f0, f0.cls)     # the decision may sit in a helper (`ctx = _with_parameterizer(ctx)`)
+        made, tested = _fresh_when_absent(program, f, pcls)
         run.ob("C02/R3 fresh Parameterizer constructed inside the call when none is supplied", f.qualname, made and tested, where=f.loc())
         if not (made and tested):
             run.finding(f"C02/shared-accumulator:{f.qualname}",
